@@ -81,6 +81,10 @@ class ClockTime(_HHMMSSTimeExpression):
     """Converts current time code to seconds"""
     return super().to_seconds() + self._milliseconds / 1000.0
 
+  def to_milliseconds(self) -> int:
+    """Converts current time code to an exact number of milliseconds"""
+    return ((self._hours * 60 + self._minutes) * 60 + self._seconds) * 1000 + self._milliseconds
+
   @staticmethod
   def parse(time_code: str) -> ClockTime:
     """Reads the time code string and converts to a ClockTime instance"""
